@@ -123,6 +123,39 @@ func LalrK(r *rand.Rand) *PGrammar {
 		}
 		rule(s, rhs...)
 	}
+	if r.Intn(3) == 0 && nAlts >= 2 {
+		// a second group of alternatives for the same heads with its own (possibly too long) middle:
+		// the same reduce/reduce conflict then has several next terminals with different depths
+		g2 := terms[len(terms)-1]
+		n2 := r.Intn(k + 2)
+		var mid2 []cfg.Sym
+		for i := 0; i < n2; i++ {
+			mid2 = append(mid2, rt())
+		}
+		used2 := map[int]bool{}
+		for a := 0; a < nAlts; a++ {
+			head := -1
+			for i, n := range g.Nonterms {
+				if n == fmt.Sprintf("A%d", a) {
+					head = i
+				}
+			}
+			if head < 0 {
+				continue
+			}
+			t := r.Intn(nTerms)
+			for tries := 0; used2[t] && tries < 10; tries++ {
+				t = r.Intn(nTerms)
+			}
+			if used2[t] {
+				continue
+			}
+			used2[t] = true
+			rhs := append([]cfg.Sym{nt(head), g2}, mid2...)
+			rhs = append(rhs, terms[t])
+			rule(s, rhs...)
+		}
+	}
 	if r.Intn(3) == 0 {
 		// wrap into a list to let the conflict occur in the middle of the input
 		l := nonterm("L")
